@@ -63,6 +63,9 @@ const (
 // two dots; a/b/a gives depth; the names are alphabet components so that ok paths hit real objects.
 var insideRel = []string{"in.txt", "b", "a/a", "a/b/a", "..a/b"}
 
+// objects planted in every decoy root (a subset of insideRel, same names)
+var decoyRel = []string{"in.txt", "b", "a/a"}
+
 func contentFor(key string) string { return "C13 " + key + "\n" + insertTag + "\n" }
 
 func joinKey(parts ...string) string {
@@ -79,8 +82,17 @@ func joinKey(parts ...string) string {
 // the root a few sentinels named like alphabet components (so that "../b", "../a/a", "../in.txt"
 // address something real), and next to each directory on the way down a sibling whose name has that
 // directory's name as a string prefix ("p" / "px").
-func worldSpec(rootComps []string) map[string]string {
+//
+// decoys are other directories that get a few objects named like the ones inside the root: the
+// places a stack of prefix maps would be rooted at if its prefixes were applied in another order.
+func worldSpec(rootComps []string, decoys [][]string) map[string]string {
 	spec := map[string]string{}
+	for _, d := range decoys {
+		for _, rel := range decoyRel {
+			k := joinKey(strings.Join(d, "/"), rel)
+			spec[k] = contentFor(k)
+		}
+	}
 	for i := range rootComps {
 		level := strings.Join(rootComps[:i], "/")
 		rels := []string{"s.txt", "b", "a/a", "in.txt", rootComps[i] + "x/s.txt"}
@@ -105,6 +117,7 @@ type world struct {
 	disk      bool
 	base      string // disk: directory holding the whole world
 	rootComps []string
+	decoys    [][]string              // wrongly ordered roots, see worldSpec
 	parent    storage.ReadWriteBucket // mem: bucket holding the whole world
 	pristine  map[string]string
 	dirty     bool
@@ -114,7 +127,7 @@ type world struct {
 func (w *world) rootKey() string { return strings.Join(w.rootComps, "/") }
 
 func (w *world) rebuild() {
-	spec := worldSpec(w.rootComps)
+	spec := worldSpec(w.rootComps, w.decoys)
 	if w.disk {
 		if err := os.RemoveAll(w.base); err != nil {
 			harness("cannot clear world %s: %v", w.base, err)
@@ -268,6 +281,17 @@ func (w *world) snapshot() map[string]string {
 	return out
 }
 
+// decoyOf returns the decoy root a world key lies in ("" if none).
+func (w *world) decoyOf(key string) string {
+	for _, d := range w.decoys {
+		root := strings.Join(d, "/")
+		if key == root || strings.HasPrefix(key, root+"/") {
+			return root
+		}
+	}
+	return ""
+}
+
 // inside reports whether a world key belongs to the bucket root (the root directory entry itself
 // counts as inside: prefix "" addresses it legitimately).
 func (w *world) inside(key string) (rel string, ok bool) {
@@ -323,9 +347,242 @@ func osBucket(dir string) storage.ReadWriteBucket {
 
 var diskComps = []string{"u1", "u2", "p", "q", "r"}
 
+// ---- stacks of prefix maps -------------------------------------------------------------------
+//
+// A stack is written "stack-mem:w=p>wc=q,r>rw=t" (or "stack-os:..."): layers from the base bucket
+// outwards, each "constructor=prefix[,prefix...]" where several prefixes are several mappers given
+// in ONE call. Constructors: w = storage.MapWriteBucket, wc = storage.MapWriteBucketCloser (over
+// NopWriteBucketCloser), rw = storage.MapReadWriteBucket. The read side of a w / wc layer is the
+// equally nested storage.MapReadBucket. By the documentation of the constructors ("as if the
+// bucket was created on the given prefix", mappers of one call ordered from full path to path)
+// the view is rooted at <prefixes of layer 1>/<prefixes of layer 2>/... of the base bucket.
+
+type layer struct {
+	ctor     string
+	prefixes []string
+}
+
+func parseStack(name string) (disk bool, layers []layer) {
+	kind, spec, ok := strings.Cut(name, ":")
+	if !ok || (kind != "stack-mem" && kind != "stack-os") {
+		harness("not a stack kind: %q", name)
+	}
+	for _, l := range strings.Split(spec, ">") {
+		ctor, prefixes, ok := strings.Cut(l, "=")
+		if !ok || (ctor != "w" && ctor != "wc" && ctor != "rw") || prefixes == "" {
+			harness("bad layer %q in %q", l, name)
+		}
+		layers = append(layers, layer{ctor: ctor, prefixes: strings.Split(prefixes, ",")})
+	}
+	return kind == "stack-os", layers
+}
+
+// writeOnWrite: some MapWriteBucket / MapWriteBucketCloser layer sits directly on another one.
+func writeOnWrite(layers []layer) bool {
+	for i := 1; i < len(layers); i++ {
+		if layers[i].ctor != "rw" && layers[i-1].ctor != "rw" {
+			return true
+		}
+	}
+	return false
+}
+
+func (l layer) comps() []string { return strings.Split(strings.Join(l.prefixes, "/"), "/") }
+
+// rwPair glues a read side and a write side together (what the composite buckets of the storage
+// package do internally).
+type rwPair struct {
+	storage.ReadBucket
+	storage.WriteBucket
+}
+
+func buildStack(base storage.ReadWriteBucket, layers []layer) storage.ReadWriteBucket {
+	var read storage.ReadBucket = base
+	var write storage.WriteBucket = base
+	for _, l := range layers {
+		mappers := make([]storage.Mapper, len(l.prefixes))
+		for i, p := range l.prefixes {
+			mappers[i] = storage.MapOnPrefix(p)
+		}
+		switch l.ctor {
+		case "w":
+			write = storage.MapWriteBucket(write, mappers...)
+			read = storage.MapReadBucket(read, mappers...)
+		case "wc":
+			write = storage.MapWriteBucketCloser(storage.NopWriteBucketCloser(write), mappers...)
+			read = storage.MapReadBucket(read, mappers...)
+		case "rw":
+			b := storage.MapReadWriteBucket(rwPair{read, write}, mappers...)
+			read, write = b, b
+		}
+	}
+	return rwPair{read, write}
+}
+
+// permutations returns every ordering of the groups except the given one, flattened.
+func permutations(groups [][]string) [][]string {
+	var out [][]string
+	var rec func(rest [][]string, acc [][]string)
+	rec = func(rest [][]string, acc [][]string) {
+		if len(rest) == 0 {
+			identity := true
+			var flat []string
+			for i, g := range acc {
+				if strings.Join(g, "/") != strings.Join(groups[i], "/") {
+					identity = false
+				}
+				flat = append(flat, g...)
+			}
+			if !identity {
+				out = append(out, flat)
+			}
+			return
+		}
+		for i := range rest {
+			next := append(append([][]string{}, rest[:i]...), rest[i+1:]...)
+			rec(next, append(append([][]string{}, acc...), rest[i]))
+		}
+	}
+	rec(groups, nil)
+	return out
+}
+
+func singletons(comps []string) [][]string {
+	out := make([][]string, len(comps))
+	for i, c := range comps {
+		out[i] = []string{c}
+	}
+	return out
+}
+
+// the variable part of the disk world: stacks on disk sit on a bucket at u1/u2 and cover p/q/r
+var diskStackComps = diskComps[2:]
+
+func diskDecoys() [][]string {
+	var out [][]string
+	for _, perm := range permutations(singletons(diskStackComps)) {
+		out = append(out, append(append([]string{}, diskComps[:2]...), perm...))
+	}
+	return out
+}
+
+// registry holds the fixed bucket kinds and creates stack kinds on demand from their name.
+type registry struct {
+	fixed  []*subject
+	disk   *world
+	stacks map[string]*subject
+}
+
+func newRegistry(fastDir, realDir string) *registry {
+	g := &registry{stacks: map[string]*subject{}}
+	g.fixed, g.disk = buildSubjects(fastDir, realDir)
+	for _, name := range fixedStacks {
+		g.fixed = append(g.fixed, g.stack(name))
+	}
+	return g
+}
+
+func (g *registry) stack(name string) *subject {
+	if s, ok := g.stacks[name]; ok {
+		return s
+	}
+	disk, layers := parseStack(name)
+	var comps []string
+	var groups [][]string
+	for _, l := range layers {
+		comps = append(comps, l.comps()...)
+		groups = append(groups, l.comps())
+	}
+	s := &subject{name: name}
+	if disk {
+		if strings.Join(comps, "/") != strings.Join(diskStackComps, "/") {
+			harness("disk stack %q must cover %v", name, diskStackComps)
+		}
+		baseDir := filepath.Join(append([]string{g.disk.base}, diskComps[:2]...)...)
+		s.w = g.disk
+		s.wrap = func(w *world) (storage.ReadWriteBucket, storage.ReadBucket) {
+			return buildStack(osBucket(baseDir), layers), nil
+		}
+	} else {
+		// decoys: the layers in every other order, and the single components reversed
+		decoys := permutations(groups)
+		rev := make([]string, len(comps))
+		for i, c := range comps {
+			rev[len(comps)-1-i] = c
+		}
+		seen := map[string]bool{strings.Join(comps, "/"): true}
+		for _, d := range decoys {
+			seen[strings.Join(d, "/")] = true
+		}
+		if !seen[strings.Join(rev, "/")] {
+			decoys = append(decoys, rev)
+		}
+		s.w = &world{name: name, rootComps: comps, decoys: decoys}
+		s.wrap = func(w *world) (storage.ReadWriteBucket, storage.ReadBucket) {
+			return buildStack(w.parent, layers), nil
+		}
+	}
+	g.stacks[name] = s
+	return s
+}
+
+func (g *registry) lookup(name string) *subject {
+	for _, s := range g.fixed {
+		if s.name == name {
+			return s
+		}
+	}
+	if strings.HasPrefix(name, "stack-") {
+		return g.stack(name)
+	}
+	return nil
+}
+
+// fixedStacks take part in the exhaustive sweep; TestRandom draws further ones.
+var fixedStacks = []string{
+	"stack-mem:w=p>w=q",       // write map directly on a write map
+	"stack-mem:w=p>w=q>w=r",   // three levels
+	"stack-mem:w=p>w=q,r",     // two mappers in one call on top of a write map
+	"stack-mem:w=p/q>wc=r",    // deep prefix below, closer variant on top
+	"stack-mem:rw=p>w=q",      // write map on a read-write map
+	"stack-mem:wc=p>w=q>rw=r", // write map on a closer map, read-write map on top
+	"stack-os:w=p>w=q>w=r",    // the same on disk
+}
+
+// genStackName draws a stack of 2-3 layers with different prefixes.
+func genStackName(t *rapid.T) string {
+	disk := rapid.IntRange(0, 3).Draw(t, "stackdisk") == 0
+	comps := []string{"p", "q", "r"}
+	if !disk && rapid.IntRange(0, 2).Draw(t, "short") == 0 {
+		comps = comps[:2]
+	}
+	nLayers := rapid.IntRange(2, len(comps)).Draw(t, "layers")
+	var groups [][]string
+	if nLayers == len(comps) {
+		groups = singletons(comps)
+	} else { // three components in two layers
+		cut := rapid.IntRange(1, 2).Draw(t, "cut")
+		groups = [][]string{comps[:cut], comps[cut:]}
+	}
+	parts := make([]string, len(groups))
+	for i, g := range groups {
+		ctor := rapid.SampledFrom([]string{"w", "w", "w", "wc", "rw"}).Draw(t, "ctor")
+		sep := "/"
+		if len(g) > 1 && rapid.Bool().Draw(t, "onecall") {
+			sep = ","
+		}
+		parts[i] = ctor + "=" + strings.Join(g, sep)
+	}
+	kind := "stack-mem:"
+	if disk {
+		kind = "stack-os:"
+	}
+	return kind + strings.Join(parts, ">")
+}
+
 // buildSubjects creates every bucket kind. fastDir holds the disk world shared by the disk kinds;
 // if realDir is not empty one more plain storageos kind ("os-tmpdir") gets its own world there.
-func buildSubjects(fastDir, realDir string) []*subject {
+func buildSubjects(fastDir, realDir string) ([]*subject, *world) {
 	var out []*subject
 	memWorld := func(name string, comps ...string) *world { return &world{name: name, rootComps: comps} }
 	add := func(s *subject) { out = append(out, s) }
@@ -368,7 +625,7 @@ func buildSubjects(fastDir, realDir string) []*subject {
 
 	// all disk kinds share one world (the same directory tree), rooted five levels deep so that up
 	// to five ".." stay inside the scratch base directory.
-	disk := &world{name: "disk", disk: true, base: filepath.Join(fastDir, "c13world"), rootComps: diskComps}
+	disk := &world{name: "disk", disk: true, base: filepath.Join(fastDir, "c13world"), rootComps: diskComps, decoys: diskDecoys()}
 	rootDir := filepath.Join(append([]string{disk.base}, diskComps...)...)
 	add(&subject{name: "os", w: disk, osRoot: rootDir, wrap: func(w *world) (storage.ReadWriteBucket, storage.ReadBucket) {
 		return osBucket(rootDir), nil
@@ -392,7 +649,7 @@ func buildSubjects(fastDir, realDir string) []*subject {
 			return osBucket(realRoot), nil
 		}})
 	}
-	return out
+	return out, disk
 }
 
 var (
@@ -680,6 +937,9 @@ func judge(s *subject, c c13Case, classes func(string)) (key, msg string) {
 	desc := fmt.Sprintf("kind=%s op=%s path=%q (reference: %s, normal form %q) returned err=%s", c.Kind, c.Op, c.Path, verdict, norm, errStr(res.err))
 
 	// (1) nothing outside the root may change
+	// A change below a decoy root is blamed on the order of the prefixes, unless a hostile path was
+	// accepted (then the string itself may have led there).
+	wrongRoot := !verdict.Hostile() || res.err != nil
 	var insideChanged []string // relative normal forms of inside FILES that were created/modified/removed
 	removedOnly := true
 	clean := true
@@ -691,10 +951,14 @@ func judge(s *subject, c c13Case, classes func(string)) (key, msg string) {
 		clean = false
 		rel, in := w.inside(k)
 		if !in {
+			verb, key := "changed", "escape-write"
 			if !still {
-				return "escape-delete", fmt.Sprintf("%s and removed %q, which is outside the bucket root %q", desc, k, w.rootKey())
+				verb, key = "removed", "escape-delete"
 			}
-			return "escape-write", fmt.Sprintf("%s and changed %q, which is outside the bucket root %q", desc, k, w.rootKey())
+			if d := w.decoyOf(k); d != "" && wrongRoot {
+				return "view-rooted-at-wrong-prefix", fmt.Sprintf("%s and %s %q: the view is rooted at %q of the base bucket, not at %q (prefixes applied in the wrong order)", desc, verb, k, w.rootKey(), d)
+			}
+			return key, fmt.Sprintf("%s and %s %q, which is outside the bucket root %q", desc, verb, k, w.rootKey())
 		}
 		if before[k] == dirMark && (!still || a == dirMark) {
 			continue // directories inside the root are not objects
@@ -711,6 +975,9 @@ func judge(s *subject, c c13Case, classes func(string)) (key, msg string) {
 		clean = false
 		rel, in := w.inside(k)
 		if !in {
+			if d := w.decoyOf(k); d != "" && wrongRoot {
+				return "view-rooted-at-wrong-prefix", fmt.Sprintf("%s and created %q: the view is rooted at %q of the base bucket, not at %q (prefixes applied in the wrong order)", desc, k, w.rootKey(), d)
+			}
 			return "escape-write", fmt.Sprintf("%s and created %q, which is outside the bucket root %q", desc, k, w.rootKey())
 		}
 		if after[k] == dirMark {
@@ -902,7 +1169,7 @@ func TestExhaustive(t *testing.T) {
 	}
 	fastDir, fsName := bucketmodel.FastScratchDir(t)
 	r.Extra("exhaustive_disk_world_on", fsName)
-	subjects := buildSubjects(fastDir, "")
+	subjects := newRegistry(fastDir, "").fixed
 	var kinds []string
 	for _, s := range subjects {
 		kinds = append(kinds, s.name)
@@ -936,7 +1203,8 @@ func TestRandom(t *testing.T) {
 	r := evid.R()
 	fastDir, fsName := bucketmodel.FastScratchDir(t)
 	r.Extra("random_disk_world_on", fsName+" (kind os-tmpdir: TMPDIR)")
-	subjects := buildSubjects(fastDir, t.TempDir())
+	reg := newRegistry(fastDir, t.TempDir())
+	subjects := reg.fixed
 	if r.Shard == 0 {
 		r.Extra("random_max_components", 12)
 		r.Extra("random_max_dotdot_components", 4)
@@ -944,9 +1212,19 @@ func TestRandom(t *testing.T) {
 	n := 0
 	r.Check(t, r.Scale(4000, 200000), 1, func(t *rapid.T) {
 		p := pathgen.GenHostilePath(4).Draw(t, "path")
-		s := subjects[rapid.IntRange(0, len(subjects)-1).Draw(t, "kind")]
+		var s *subject
+		if rapid.IntRange(0, 3).Draw(t, "stack") == 0 {
+			// a freshly drawn stack of nested prefix maps (2-3 layers, mixed constructors)
+			s = reg.stack(genStackName(t))
+			r.Class("random-kind-" + s.name[:strings.IndexByte(s.name, ':')] + "-generated")
+			if _, layers := parseStack(s.name); writeOnWrite(layers) {
+				r.Class("random-stack-write-map-directly-on-write-map")
+			}
+		} else {
+			s = subjects[rapid.IntRange(0, len(subjects)-1).Draw(t, "kind")]
+			r.Class("random-kind-" + s.name)
+		}
 		classifyPath(r, p)
-		r.Class("random-kind-" + s.name)
 		n++
 		for _, op := range s.ops() {
 			c := c13Case{Kind: s.name, Op: op, Path: p}
@@ -1016,14 +1294,12 @@ func TestReplay(t *testing.T) {
 		return
 	}
 	fastDir, _ := bucketmodel.FastScratchDir(t)
-	for _, s := range buildSubjects(fastDir, t.TempDir()) {
-		if s.name == c.Kind {
-			if !contains(s.ops(), c.Op) {
-				t.Fatalf("harness: kind %s has no operation %q", c.Kind, c.Op)
-			}
-			evalCase(t, r, s, c)
-			return
-		}
+	s := newRegistry(fastDir, t.TempDir()).lookup(c.Kind)
+	if s == nil {
+		t.Fatalf("harness: unknown kind %q", c.Kind)
 	}
-	t.Fatalf("harness: unknown kind %q", c.Kind)
+	if !contains(s.ops(), c.Op) {
+		t.Fatalf("harness: kind %s has no operation %q", c.Kind, c.Op)
+	}
+	evalCase(t, r, s, c)
 }
